@@ -192,6 +192,9 @@ func (r *run) exec(a Label) (e ev, enabled bool, err error) {
 		wd.tick()
 		e = ev{"op": "Tick"}
 	case "Mine":
+		if !wd.mineAllowed() {
+			return nil, false, nil
+		}
 		e, err = wd.mine()
 	case "Reward":
 		if !wd.rewardAllowed() {
@@ -484,7 +487,13 @@ func TestReplayOne(t *testing.T) {
 		writeRun(tw, r)
 		res.Traces = 1
 	case "session":
-		r, err := randomSession(mm.Replay.Seed, mm.Replay.Index, "")
+		var r *run
+		var err error
+		if mm.Replay.Conc {
+			r, err = concurrentSession(mm.Replay.Seed, mm.Replay.Index) // same programme; the schedule is the runtime's
+		} else {
+			r, err = randomSession(mm.Replay.Seed, mm.Replay.Index, "")
+		}
 		if err != nil {
 			t.Fatal(err)
 		}
@@ -720,4 +729,3 @@ func TestSessions(t *testing.T) {
 		t.Fatal(firstErr)
 	}
 }
-
